@@ -272,3 +272,24 @@ package dna
 //@   ensures m.countgapmut != GAP_COUNT_ALL && m.countgapmut != GAP_COUNT_INTERNAL && sumlen(seq1, seq2, m.selectedSites, weights, m.removeAmbiguous, len(seq1)) == 0.0 ==> !isfin(diff)
 //@   ensures m.countgapmut == GAP_COUNT_ALL && sumlenG(seq1, seq2, m.selectedSites, weights, m.removeAmbiguous, len(seq1)) != 0.0 ==> isfin(diff) && fin(diff) == sumdiffG(seq1, seq2, m.selectedSites, weights, len(seq1)) / sumlenG(seq1, seq2, m.selectedSites, weights, m.removeAmbiguous, len(seq1))
 //@   modifies nothing
+
+// ---- C08: the worker of DistMatrix always signals completion; per-pair symmetry ----
+
+// assumed common contract of the seven implementations of DistModel.Distance (each has its own proved contract above; none writes the heap)
+//@ func (DistModel).Distance
+//@   props C08
+//@   trusted common frame of the seven Distance implementations, each proved to modify nothing
+//@   modifies nothing
+
+// every pair handed to the workers indexes the N x N output matrix (N is a ghost constant; the producer proves it for what it sends)
+//@ func DistMatrix$2
+//@   props C08
+//@   float xreal
+//@   chaninv seqpairdist : 0 <= elem_i && elem_i < ghost(N) && 0 <= elem_j && elem_j < ghost(N)
+//@   requires wg != nil && mux != nil && len(outmatrix) == ghost(N) && (forall r :: 0 <= r && r < ghost(N) ==> len(outmatrix[r]) == ghost(N)) && model != nil && gf(locked, mux) == 0
+//@   ensures gf(wgdone, wg) == old(gf(wgdone, wg)) + 1
+//@   ensures gf(locked, mux) == 0
+//@   modifies mem(float64), captured(DistMatrix$2.err), captured(DistMatrix$2.max), captured(DistMatrix$2.uncompute), mem(seqpairdist), gf(wgdone), gf(locked)
+//@   loop 1
+//@     invariant gf(wgdone, wg) == old(gf(wgdone, wg)) && gf(locked, mux) == 0
+//@     invariant len(outmatrix) == ghost(N) && (forall r :: 0 <= r && r < ghost(N) ==> len(outmatrix[r]) == ghost(N))
